@@ -239,8 +239,8 @@ func c15Check(c C15Case, cx *h.Ctx) *h.Failure {
 
 func TestC15(t *testing.T) {
 	h.Run(t, h.Prop[C15Case]{
-		ID:   "C15",
-		Rule: "cases = one valid geometry of any type from the C14 generator (triangulated integer grids under an injective integer map; 1 in 4 pushed through a float affine map): polygons with holes touching the shell and each other, narrow/concave shapes, closed and self-touching lines, MultiLineStrings sharing end points several ways, collections (pairwise disjoint members) with empty members. Checks: Dimension/IsEmpty = structural values; Boundary(g): dimension one lower or empty, empty for points, Boundary(Boundary(g)) empty, every vertex and segment midpoint of it is located B in g by the exact OGC locator, its points are exactly the odd-degree end points and its segments exactly the ring segments of g (as exact sets), a collection's boundary is the ordered list of its members' non-empty boundaries; PointOnSurface(g): empty iff g is, finite, XY, exactly Interior for areal g and on a member of the highest dimension otherwise. non-trivial = areal with a vertex on the row of the returned point, or lineal with >= 2 lines, or an empty member, or > 4 boundary segments",
+		ID:          "C15",
+		Rule:        "cases = one valid geometry of any type from the C14 generator (triangulated integer grids under an injective integer map; 1 in 4 pushed through a float affine map): polygons with holes touching the shell and each other, narrow/concave shapes, closed and self-touching lines, MultiLineStrings sharing end points several ways, collections (pairwise disjoint members) with empty members. Checks: Dimension/IsEmpty = structural values; Boundary(g): dimension one lower or empty, empty for points, Boundary(Boundary(g)) empty, every vertex and segment midpoint of it is located B in g by the exact OGC locator, its points are exactly the odd-degree end points and its segments exactly the ring segments of g (as exact sets), a collection's boundary is the ordered list of its members' non-empty boundaries; PointOnSurface(g): empty iff g is, finite, XY, exactly Interior for areal g and on a member of the highest dimension otherwise. non-trivial = areal with a vertex on the row of the returned point, or lineal with >= 2 lines, or an empty member, or > 4 boundary segments",
 		Assumptions: []string{"exact kernel (internal/exact)", "float family: a returned point may sit on the boundary / within 1e-9 x magnitude of a line because the geometry itself is rounded (counted)"},
 		Gen:         c15Gen,
 		Check:       c15Check,
